@@ -507,6 +507,125 @@ def inverse_agreement(lists, decomp, report, where):
     return dict(pairs=n, disagreeing=bad)
 
 
+REJECTING_ENTRY_POINTS = ("_wcsnorm_decompose_s_chk", "_wcsnorm_reorder_s_chk", "_wcsnorm_compose_s_chk", "_wcsfc_s_chk")
+
+
+def rejection_rule(ck, prog, direct, report, tu_prefix="src/extwchar/", entry_points=REJECTING_ENTRY_POINTS):
+    """clause "code points above U+10FFFF are rejected": every call from an entry point to a code-point consumer passes a value that was
+    range-checked in the caller.  Consumers are the helpers that index a plane table with (parameter >> 16) -- found by the table-index
+    clause -- and the helpers that hand their own parameter on to one; whether the helper also protects itself does not matter here: a
+    value above U+10FFFF that reaches it was not *rejected* by the function that took it from the string.  Decided by interval-set
+    reachability of the argument's SSA value at the call (guards `value > 0x10FFFF -> error exit` restrict the set)."""
+    cons = {k: set(v) for k, v in direct.items()}
+
+    def strip(fn, a):
+        while a.get("k") == "v" and fn.defs.get(a["id"], {}).get("op") in ("zext", "trunc", "sext"):
+            a = fn.defs[a["id"]]["ops"][0]
+        return a
+    funcs = [f for f in prog.allfuncs if f.mod["tu"].startswith(tu_prefix)]
+    changed = True
+    while changed:
+        changed = False
+        for fn in funcs:
+            for c in fn.calls():
+                cal = c.get("callee")
+                if cal in cons and prog.resolve(fn, cal) is not None:
+                    for k in list(cons[cal]):
+                        a = strip(fn, c["args"][k])
+                        if a.get("k") == "v" and a["id"] in fn.params:
+                            pi = fn.param_index(fn.params[a["id"]]["name"])
+                            if pi not in cons.setdefault(fn.name, set()):
+                                cons[fn.name].add(pi); changed = True
+    def from_operand(fn, v, seen=None):
+        """is the integer SSA value v an element taken from a caller-supplied string: a load through, or a decode call on, a pointer derived from a pointer parameter"""
+        d = fn.defs.get(v)
+        if d is None:
+            return False
+        if d["op"] == "load":
+            ptr = d["ops"][0]
+        elif d["op"] == "call" and d.get("args") and d["args"][0].get("ty", "").endswith("*"):
+            ptr = d["args"][0]
+        else:
+            return False
+        todo, seen = [ptr], set()
+        while todo:
+            o = todo.pop()
+            if o.get("k") != "v" or o["id"] in seen:
+                continue
+            seen.add(o["id"])
+            if o["id"] in fn.params:
+                return True
+            dd = fn.defs.get(o["id"])
+            if dd is None:
+                continue
+            if dd["op"] == "getelementptr":
+                todo.append(dd["base"])
+            elif dd["op"] in ("bitcast",):
+                todo.append(dd["ops"][0])
+            elif dd["op"] == "phi":
+                todo += [x["v"] for x in dd["incoming"]]
+        return False
+    def producer_ptr(fn, v):
+        d = fn.defs.get(v)
+        if d is None:
+            return None
+        o = d["ops"][0] if d["op"] == "load" else (d["args"][0] if d["op"] == "call" and d.get("args") else None)
+        while o is not None and o.get("k") == "v" and fn.defs.get(o["id"], {}).get("op") == "bitcast":
+            o = fn.defs[o["id"]]["ops"][0]
+        return (d["op"], d.get("callee"), o.get("id")) if o is not None and o.get("k") == "v" else None
+
+    def same_element(fn, v):
+        key = producer_ptr(fn, v)
+        out = [v]
+        if key is not None:
+            for i in fn.insts():
+                if "id" in i and i["id"] != v and i["op"] in ("load", "call") and producer_ptr(fn, i["id"]) == key:
+                    out.append(i["id"])
+        return out
+    sites = []
+    not_judged = []
+    for fn in funcs:
+        for c in fn.calls():
+            cal = c.get("callee")
+            if cal is None or prog.resolve(fn, cal) is None:
+                continue
+            if cal in cons:
+                ks = sorted(cons[cal])
+            elif fn.name in entry_points and any(i["op"] in ("load", "store", "call", "invoke") for i in prog.resolve(fn, cal).insts()):
+                # (a callee that only compares its argument with constants cannot misuse an out-of-range value: look-ahead classifiers)
+                # any other library routine that is handed an element of the operand as an integer (classifiers, single-character folding)
+                ks = [k for k, a in enumerate(c.get("args", ())) if a.get("ty", "").startswith("i") and strip(fn, a).get("k") == "v" and from_operand(fn, strip(fn, a)["id"])]
+            else:
+                continue
+            for k in ks:
+                a = strip(fn, c["args"][k])
+                if a.get("k") == "c":
+                    ok = a["v"] <= UNICODE_MAX
+                elif a.get("k") == "v" and a["id"] in fn.params and fn.name in cons and fn.param_index(fn.params[a["id"]]["name"]) in cons[fn.name]:
+                    continue          # a consumer handing its own parameter on: its callers are the sites
+                elif a.get("k") == "v" and not from_operand(fn, a["id"]):
+                    not_judged.append(dict(caller=fn.name, callee=cal, where=fn.loc(c), value=a["id"], reason="not an element taken directly from an operand (carried across iterations or decoded from a local buffer)"))
+                    continue
+                elif a.get("k") == "v":
+                    # the same element may be decoded more than once: a check on any decode of the same pointer value that dominates the call counts
+                    ok = False
+                    for v2 in same_element(fn, a["id"]):
+                        d2 = fn.defs[v2]
+                        if v2 != a["id"] and not fn.dominates(d2["_bb"], c["_bb"]):
+                            continue
+                        R = intervals.reach(fn, v2, 0, (1 << 32) - 1)[c["_bb"]]
+                        if R and all(h <= UNICODE_MAX for (l, h) in R):
+                            ok = True; break
+                else:
+                    ok = False
+                sites.append(dict(caller=fn.name, callee=cal, where=fn.loc(c), range_checked=ok))
+                if not ok:
+                    report("C17:not-rejected:%s->%s:%s" % (api.base_name(fn.name), cal, a.get("id", "?").lstrip("%")), "R-out-of-range-rejected-by-the-entry-point", fn.loc(c),
+                           "%s hands the code point %s to %s without having rejected values above U+10FFFF on this path: an out-of-range value taken from the string is processed (passed through or looked up) instead of being reported"
+                           % (api.base_name(fn.name), a.get("id"), cal))
+    return dict(consumers={k: sorted(v) for k, v in sorted(cons.items())}, call_sites=sites, not_judged=not_judged)
+
+
 def run(ck):
     mods, info = frontend.load_modules()
     prog = Program(mods)
@@ -533,6 +652,16 @@ def run(ck):
                           "%s indexes %s with %s, which is not known to be below 17 (code point not checked against U+10FFFF)" % (fn.name, x["role"], x["off"]))
                 continue
             need.setdefault(fn.name, set()).add(pidx)
+    direct = {}
+    for fn in prog.allfuncs:
+        if fn.mod["tu"].startswith("src/extwchar/"):
+            res, _ = capcheck.analyse(fn, roles.get(fn.name, []), prog, roles, want_kinds=("R",))
+            for (x, pidx) in plane_accesses(fn, res):
+                if pidx is not None:
+                    direct.setdefault(fn.name, set()).add(pidx)
+    rej = rejection_rule(ck, prog, direct, ck.report)
+    if len(rej["call_sites"]) < 5:
+        ck.fail_broken("rejection rule: only %d call sites of code-point consumers found (< 5)" % len(rej["call_sites"]))
     # 2. propagate preconditions to call sites
     n_sites = 0
     done = set()
@@ -590,15 +719,15 @@ def run(ck):
     fx = selftest(ck)
     ob = n_acc + n_sites
     cov = dict(explanation="%d loads from constant tables indexed by (code point >> 16) were found in src/extwchar; %d are bounded inside the function; for the others the bound "
-               "cp <= 0x10FFFF is required at every call site of the lookup helper (%d call-site obligations, followed through internal callers' parameters). Fold agreement: iswfc's decision tree, evaluated over the interval partition induced by its own "
+               "cp <= 0x10FFFF is required at every call site of the lookup helper (%d call-site obligations, followed through internal callers' parameters). Rejection: at each of the %d calls from an entry point to a code-point consumer the argument was range-checked in the caller (interval-set reachability). Fold agreement: iswfc's decision tree, evaluated over the interval partition induced by its own "
                "comparison constants, announces 2 resp. 3 characters for exactly the key columns of towfc_s's 2- resp. 3-character tables; the tables are strictly ascending and "
                "zero-terminated; a hit stores k+1 elements and returns k. Layout agreement: for each of the %s composition lists reachable through the three-level table, the element size "
                "with which _composite_cp walks it (interval-set reachability over its comparisons of the code point with constants) equals the element size of the stored list; every list is "
                "reachable, strictly ascending and zero-terminated; the searched code point is not truncated before the key comparison. Decomposition agreement: each of the %s distinct packed (length, index) values stored in the "
                "three-level canonical table decodes, with _decomp_canonical_s's own shifts, masks and address arithmetic (constant-folded over the table contents), to exactly one row of an existing value table, "
-               "the returned length is that row's width, and every row of the value tables is referenced." % (n_acc, n_ok, n_sites, layout.get("lists"), decomp.get("distinct_values")),
+               "the returned length is that row's width, and every row of the value tables is referenced." % (n_acc, n_ok, n_sites, len(rej["call_sites"]), layout.get("lists"), decomp.get("distinct_values")),
                obligations=ob, discharged=ob - len({r["key"] for r in ck.reports}), table_accesses=n_acc, bounded_in_place=n_ok, call_site_obligations=n_sites,
-               helpers_relying_on_callers={k: sorted(v) for k, v in need.items()}, fold_agreement=fold, layout_agreement=layout, decomposition_agreement=decomp, inverse_agreement=inverse, fixtures=fx, frontend=info,
+               helpers_relying_on_callers={k: sorted(v) for k, v in need.items()}, rejection=rej, fold_agreement=fold, layout_agreement=layout, decomposition_agreement=decomp, inverse_agreement=inverse, fixtures=fx, frontend=info,
                summary="%d plane-table accesses, %d call-site obligations" % (n_acc, n_sites))
     return ck.finish(cov, ["decided: the table-index clause, the iswfc/towfc_s agreement for multi-character foldings the reader/table layout agreement of the composition lists and the decode agreement of the canonical decomposition tables; UAX #15 conformance, idempotence and the single-character (libc towlower/iswupper) cases are not", "32-bit wchar_t configuration"])
 
